@@ -26,6 +26,23 @@ def v2_inst(item, cont):
     return ["V2_reindex.fn:%s as GetID::*" % item, "V2_reindex.fn:%s as LocalOrImport::*" % item,
             "V2_reindex.fn:%s as ReIndexable::*" % cont, "V2_reindex.fn:%s as Iter::*" % cont]
 
+V6_FUNCS = ["V6_api.add_import_func.*", "V6_api.fn:Module::add_import_func_with_tag", "V6_api.add_local_func.*", "V6_api.fn:Module::add_local_func_with_tag",
+            "V6_api.delete_func.*", "V6_api.fn:Module::delete_func", "V6_api.Functions.*", "V6_api.fn:Functions::*", "V6_api.fn:Function::*",
+            "V6_api.ModuleImports.*", "V6_api.fn:ModuleImports::*", "V6_api.fn:Module::add_import", "V6_api.fn:LocalFunction::new", "V6_api.LocalFunction.*",
+            "V6_api.convert_import_fn_to_local.*", "V6_api.fn:Module::convert_import_fn_to_local",
+            "V6_api.convert_local_fn_to_import.*", "V6_api.fn:Module::convert_local_fn_to_import_with_tag", "V6_api.kf.convert_local_fn_to_import.keeps_import_order",
+            "V2_reindex.lemma.import_order_survives_reorganisation", "V2_reindex.fn:lemma_import_order_preserved", "V2_reindex.fn:lemma_origin_monotone_on_imports"]
+V6_GLOBALS = ["V6b_api2.add_global.*", "V6b_api2.add_imported_global.*", "V6b_api2.delete_global.*", "V6b_api2.mod_global_init_expr.*", "V6b_api2.ModuleGlobals.*",
+              "V6b_api2.Global.*", "V6b_api2.ModuleIterator.add_global.*", "V6b_api2.fn:Module::add_global_internal", "V6b_api2.fn:Module::add_global_with_tag",
+              "V6b_api2.fn:Module::add_imported_global_with_tag", "V6b_api2.fn:Module::delete_global", "V6b_api2.fn:Module::mod_global_init_expr",
+              "V6b_api2.fn:ModuleGlobals::*", "V6b_api2.fn:Global::*", "V6b_api2.fn:ImportedGlobal::new", "V6b_api2.fn:ModuleIterator as IteratingInstrumenter::add_global"]
+V6_MEMS = ["V6b_api2.add_local_memory.*", "V6b_api2.add_import_memory.*", "V6b_api2.delete_memory.*", "V6b_api2.Memories.*", "V6b_api2.fn:Memories::*", "V6b_api2.fn:Memory::delete",
+           "V6b_api2.fn:Module::add_local_memory_with_tag", "V6b_api2.fn:Module::add_import_memory_with_tag", "V6b_api2.fn:Module::delete_memory"]
+V6_DELETES = ["V6_api.delete_func.*", "V6_api.fn:Module::delete_func", "V6_api.Functions.delete.*", "V6_api.fn:Functions::delete", "V6_api.ModuleImports.delete.*", "V6_api.fn:ModuleImports::delete",
+              "V6b_api2.delete_global.*", "V6b_api2.fn:Module::delete_global", "V6b_api2.ModuleGlobals.delete.*", "V6b_api2.fn:ModuleGlobals::delete",
+              "V6b_api2.delete_memory.*", "V6b_api2.fn:Module::delete_memory", "V6b_api2.Memories.delete.*", "V6b_api2.fn:Memories::delete",
+              "V6b_api2.ModuleExports.delete.*", "V6b_api2.fn:ModuleExports::delete"]
+
 ENCODE_GLUE = "Module::encode_internal (src/ir/module/mod.rs): the call sites of recalculate_ids / fix_op_id_mapping and the per-section emission loops are not under contract"
 
 PROPS = {
@@ -41,8 +58,8 @@ PROPS = {
     },
     "C06": {
         "title": "Function references stay bound to the same function across edits",
-        "units": ["V2_reindex", "V3_remap"],
-        "obligations": V2_GENERIC + v2_inst("Function", "Functions") + [
+        "units": ["V2_reindex", "V3_remap", "V6_api"],
+        "obligations": V2_GENERIC + v2_inst("Function", "Functions") + V6_FUNCS + [
             "V3_remap.refers_to_func.*", "V3_remap.fn:refers_to_func", "V3_remap.update_fn_instr.*", "V3_remap.fn:update_fn_instr",
             "V3_remap.fix_op_id_mapping.*", "V3_remap.fn:fix_op_id_mapping", "V3_remap.InitInstr.*", "V3_remap.fn:InitInstr::fix_id_mapping",
             "V3_remap.fn:lemma_families_disjoint"],
@@ -51,8 +68,8 @@ PROPS = {
     },
     "C07": {
         "title": "Global references stay bound to the same global across edits",
-        "units": ["V2_reindex", "V3_remap"],
-        "obligations": V2_GENERIC + v2_inst("Global", "ModuleGlobals") + [
+        "units": ["V2_reindex", "V3_remap", "V6b_api2"],
+        "obligations": V2_GENERIC + v2_inst("Global", "ModuleGlobals") + V6_GLOBALS + [
             "V3_remap.refers_to_global.*", "V3_remap.fn:refers_to_global", "V3_remap.update_global_instr.*", "V3_remap.fn:update_global_instr",
             "V3_remap.fix_op_id_mapping.*", "V3_remap.fn:fix_op_id_mapping", "V3_remap.InitInstr.*", "V3_remap.fn:InitInstr::fix_id_mapping"],
         "glue": [ENCODE_GLUE, "global export emission; table/element constant expressions", "'output validates' is not decided"],
@@ -60,8 +77,8 @@ PROPS = {
     },
     "C08": {
         "title": "Memory references stay bound to the same memory across edits",
-        "units": ["V2_reindex", "V3_remap"],
-        "obligations": V2_GENERIC + v2_inst("Memory", "Memories") + [
+        "units": ["V2_reindex", "V3_remap", "V6b_api2"],
+        "obligations": V2_GENERIC + v2_inst("Memory", "Memories") + V6_MEMS + [
             "V3_remap.refers_to_memory.*", "V3_remap.fn:refers_to_memory", "V3_remap.update_memory_instr.*", "V3_remap.fn:update_memory_instr",
             "V3_remap.fix_op_id_mapping.*", "V3_remap.fn:fix_op_id_mapping"],
         "glue": [ENCODE_GLUE, "data-segment memory index and memory export lines in encode_internal", "'output validates' is not decided"],
@@ -69,8 +86,8 @@ PROPS = {
     },
     "C09": {
         "title": "Deletion removes exactly the deleted entity",
-        "units": ["V2_reindex", "V3_remap"],
-        "obligations": V2_GENERIC + v2_inst("Function", "Functions") + v2_inst("Global", "ModuleGlobals") + v2_inst("Memory", "Memories") + [
+        "units": ["V2_reindex", "V3_remap", "V6_api", "V6b_api2"],
+        "obligations": V2_GENERIC + v2_inst("Function", "Functions") + v2_inst("Global", "ModuleGlobals") + v2_inst("Memory", "Memories") + V6_DELETES + [
             "V3_remap.update_*_instr.*", "V3_remap.fn:update_*_instr", "V3_remap.fn:InitInstr::fix_id_mapping"],
         "glue": [ENCODE_GLUE, "ModuleExports::delete / ModuleImports::delete flags are honoured by emission loops in encode_internal",
                  "'fails loudly': update_* are proved panic-free exactly when every referenced id has an image; the converse (a missing image panics rather than writing an index) is by inspection of the three `None => panic!` arms"],
@@ -94,6 +111,23 @@ PROPS = {
                        + V2_GENERIC + v2_inst("Function", "Functions") + ["V3_remap.update_fn_instr.*", "V3_remap.fn:update_fn_instr", "V3_remap.refers_to_func.*"],
         "glue": [ENCODE_GLUE],
         "design_ref": "DESIGN.md §5 C11",
+    },
+    "C28": {
+        "title": "Custom sections are preserved and edited exactly",
+        "units": ["V6b_api2"],
+        "obligations": ["V6b_api2.CustomSections.*", "V6b_api2.fn:CustomSections::*"],
+        "glue": ["parsing custom sections into the collection (name-section exclusion) and emitting them (order) happen in parse_internal / encode_internal: not under contract",
+                 "CustomSections::get_section_data_mut (Cow::to_mut) and CustomSections::new (iterator adaptor chain) are not under contract"],
+        "design_ref": "DESIGN.md §5 C28",
+        "level_text": "The collection behaves as a sequence: add appends and returns the new index, delete removes exactly the addressed entry and keeps the order of the others, get_by_id returns exactly the addressed entry; for all contents and ids.",
+    },
+    "C30": {
+        "title": "Module-level additions appear exactly as requested",
+        "units": ["V6b_api2", "V3_remap"],
+        "obligations": V6_GLOBALS + V6_MEMS + ["V6b_api2.add_data.*", "V6b_api2.fn:Module::add_data", "V6b_api2.ModuleExports.add_export_*", "V6b_api2.fn:ModuleExports::add_export_*",
+                        "V3_remap.InitInstr.*", "V3_remap.fn:InitInstr::fix_id_mapping"],
+        "glue": [ENCODE_GLUE, "DataType -> ValType (content type) is abstract here (valtype_of); bit-exactness of constants (InitExpr::to_wasmencoder_type) and the emission of limits / payloads are not under contract at this commit"],
+        "design_ref": "DESIGN.md §5 C30",
     },
     "C29": {
         "title": "Names stay attached to their entities",
